@@ -100,7 +100,7 @@ func options(a *Action) string {
 	if a.Me0 {
 		o = append(o, "me=0")
 	}
-	if a.TTL > 0 {
+	if a.TTL >= 0 && (a.N == "pub" || a.N == "link") {
 		o = append(o, fmt.Sprintf("ttl=%d", a.TTL))
 	}
 	if a.N == "sub" {
